@@ -63,7 +63,9 @@ def tlc(spec, cfg, workers=NCPU, metadir=None, extra="", env=None, timeout=3000,
     md = metadir or (TLCDIR + "/%s.%d" % (os.path.basename(cfg), os.getpid()))
     shutil.rmtree(md, ignore_errors=True)
     e = {}
-    opts = "-Xmx%s" % heap
+    jtmp = md + ".tmp"       # TLC unpacks its standard modules into java.io.tmpdir and leaves them there
+    os.makedirs(jtmp, exist_ok=True)
+    opts = "-Xmx%s -Djava.io.tmpdir=%s" % (heap, jtmp)
     if dfs:
         opts += " -Dtlc2.tool.queue.IStateQueue=StateDeque"
     e["JAVA_TOOL_OPTIONS"] = opts
@@ -73,6 +75,7 @@ def tlc(spec, cfg, workers=NCPU, metadir=None, extra="", env=None, timeout=3000,
     t0 = time.time()
     rc, out = sh(cmd, env=e, cwd=SPEC, timeout=timeout + 60)
     shutil.rmtree(md, ignore_errors=True)
+    shutil.rmtree(jtmp, ignore_errors=True)
     r = {"rc": rc, "out": out, "wall": time.time() - t0}
     m = re.search(r"(\d+) states generated, (\d+) distinct states found", out)
     r["generated"] = int(m.group(1)) if m else 0
@@ -94,7 +97,7 @@ def tlc(spec, cfg, workers=NCPU, metadir=None, extra="", env=None, timeout=3000,
 def tlc_coverage(out):
     """Parse -coverage output: action name -> (taken, generated)."""
     cov = {}
-    for m in re.finditer(r"^<(\w+) line \d+, col \d+ to line \d+, col \d+ of module \w+>: (\d+):(\d+)", out, re.M):
+    for m in re.finditer(r"^<(\w+) line \d+, col \d+ to line \d+, col \d+ of module \w+(?: \([\d ]+\))?>: (\d+):(\d+)", out, re.M):
         n, a, b = m.group(1), int(m.group(2)), int(m.group(3))
         x = cov.get(n, (0, 0))
         cov[n] = (x[0] + a, x[1] + b)
